@@ -19,7 +19,7 @@ def quiet : List Ev → Bool
   | [] => true
   | e :: r =>
     match e with
-    | .hijacked _ _ => r.all isBookkeeping
+    | .hijacked _ _ _ => r.all isBookkeeping
     | _ => quiet r
 
 theorem okUp_mono (l : List Ev) : ∀ (a b : List Nat), (∀ x ∈ a, x ∈ b) → okUp a l = true → okUp b l = true := by
